@@ -84,8 +84,8 @@ def split_client(buf: bytearray) -> list[bytes]:
 
 def shards(tier: str, seed: int) -> list[dict[str, Any]]:
     if tier == "quick":
-        return ([{"mode": "connect", "part": i, "parts": 2} for i in range(2)] + [{"mode": "exh", "maxlen": 3, "part": i, "parts": 6, "splits": 12} for i in range(6)]
-                + [{"mode": "rand", "n": 500, "part": i} for i in range(6)])
+        return ([{"mode": "connect", "part": i, "parts": 2} for i in range(2)] + [{"mode": "exh", "maxlen": 3, "part": i, "parts": 6, "splits": 30} for i in range(6)]
+                + [{"mode": "rand", "n": 1200, "part": i} for i in range(8)])
     return ([{"mode": "connect", "part": i, "parts": 4, "full": True} for i in range(4)] + [{"mode": "exh", "maxlen": 4, "part": i, "parts": 16, "splits": 200} for i in range(16)]
             + [{"mode": "rand", "n": 12000, "part": i} for i in range(12)])
 
